@@ -1080,8 +1080,34 @@ class Engine:
   def qual_target(self, f):
     return f"{f.module.relpath}::{f.name}"
 
+  MEMO_DECORATORS = {"lru_cache", "cache", "cached_property", "memoize", "memoized"}
+
+  @classmethod
+  def memoised_mutable(cls, fn):
+    """Name of a memoising decorator on fn when fn's result is (or may be) a mutable object: every caller then gets
+    the SAME object, and an in-place update by one caller changes what all later callers see - state outside the
+    arguments, which the functional reading of contracts (and of inlined bodies) excludes."""
+    if not isinstance(fn, (ast.FunctionDef, ast.AsyncFunctionDef)):
+      return None
+    for d in fn.decorator_list:
+      core = d.func if isinstance(d, ast.Call) else d
+      name = core.attr if isinstance(core, ast.Attribute) else (core.id if isinstance(core, ast.Name) else "")
+      if name in cls.MEMO_DECORATORS:
+        ann = ast.unparse(fn.returns) if fn.returns is not None else ""
+        head = ann.split("[")[0].split(".")[-1].strip("'\" ")
+        if head in ("int", "str", "bytes", "bool", "float", "tuple", "frozenset", "None", "mpz") and "list" not in ann \
+            and "set[" not in ann.replace("frozenset[", "") and "dict" not in ann:
+          return None
+        return name
+    return None
+
   def call_repo(self, st, f, args, kwargs, node):
     target = self.qual_target(f)
+    memo = self.memoised_mutable(f.node)
+    if memo and self.cur is not None:
+      self.emit(State([]), "frame", f"{self.cur.qual}/frame:no state outside the arguments (memoised {target})", False,
+                clause=f"{target} is memoised ({memo}) and returns a mutable object: the object is shared by all callers, "
+                       f"so the result of {self.cur.qual} may depend on earlier calls")
     c = C.REGISTRY.get(target)
     is_method = f.kind == "method"
     if c is None or c.inline:
@@ -2407,7 +2433,10 @@ class Engine:
 
   def emit_frame(self, c, fn, module):
     self.cur = c
-    for what in self.frame_violations(c, fn, module):
+    whats = self.frame_violations(c, fn, module)
+    if self.memoised_mutable(fn):
+      whats = whats + [f"memoised {c.target}"]
+    for what in whats:
       if what in getattr(c, "frame_ok", ()):
         continue
       st = State([])
